@@ -64,7 +64,7 @@ func RunProperty(prop string, c04 bool, seed int64, tier, out string) {
 		r := runs[i]
 		class := classOf(r)
 		for _, n := range r.Notes {
-			if strings.Contains(n, "deadline exceeded") {
+			if strings.Contains(n, "deadline exceeded") && !strings.HasPrefix(n, "settle attempt") {
 				res.Warnings = append(res.Warnings, fmt.Sprintf("scenario %d: %s | %s", i, n, scs[i].String()))
 			}
 		}
